@@ -23,6 +23,7 @@ H = "_history.py"
 R = "_services/registry.py"
 C = "_cache.py"
 D = "_dns.py"
+Q = "_handlers/multicast_outgoing_queue.py"
 
 # (name, kind, property, file, old, new)
 CASES = [
@@ -82,6 +83,15 @@ CASES = [
     ("D-R2", "rewrite", "C20", D, "        for record in answers:\n            if self._suppressed_by_answer(record):\n                return True\n        return False",
      "        found = False\n        for record in answers:\n            if self._suppressed_by_answer(record):\n                found = True\n                break\n        return found"),
     ("D-R3", "rewrite", "C13", D, "        return self.created + (_EXPIRE_FULL_TIME_MS * self.ttl) <= now", "        return now >= self.created + (_EXPIRE_FULL_TIME_MS * self.ttl)"),
+    # ---- _handlers/multicast_outgoing_queue.py / C12
+    ("Q-M1", "mutation", "C12", Q, "            if send_after <= last_group.send_after:", "            if send_after < last_group.send_after:"),
+    ("Q-M2", "mutation", "C12", Q, "        random_delay = random_int + self._additional_delay\n", "        random_delay = random_int\n"),
+    ("Q-M3", "mutation", "C12", Q, "        while len(self.queue) and self.queue[0].send_after <= now:", "        while len(self.queue) and self.queue[0].send_after < now:"),
+    ("Q-M4", "mutation", "C12", Q, "            for record in answers:\n                pending.answers.pop(record, None)\n", "            for record in answers:\n                pending.answers.pop(record, None)\n                break\n"),
+    ("Q-M5", "mutation", "C12", Q, "        if len(self.queue) > 1 and self.queue[0].send_before > now:", "        if len(self.queue) >= 1 and self.queue[0].send_before > now:"),
+    ("Q-R1", "rewrite", "C12", Q, ("random_delay", "delay_ms"), None),
+    ("Q-R2", "rewrite", "C12", Q, "        if len(self.queue):\n            # If we calculate", "        if self.queue:\n            # If we calculate"),
+    ("Q-R3", "rewrite", "C12", Q, "            answers.update(self.queue.popleft().answers)\n", "            group = self.queue.popleft()\n            answers.update(group.answers)\n"),
     ("R-R5", "rewrite", "C03", R, "        names = index[key]\n        names.remove(name)\n        if not names:\n            del index[key]\n",
      "        index[key].remove(name)\n        if len(index[key]) == 0:\n            del index[key]\n"),
 ]
